@@ -38,6 +38,7 @@ type FuncCtx struct {
 	curPos     token.Pos
 	curInstr   ssa.Instruction
 	skipPre    bool
+	rename     map[string]string // contract-local name -> current name of the renamed local (recovered, see recoverRename)
 	openChans  map[string]bool // channel terms read from fields declared openchan
 	fn         *ssa.Function
 	fc         *FuncContract
@@ -232,6 +233,7 @@ func (e *Engine) verifyFunc(pkgPath, key string) (fx *FuncCtx, err error) {
 		trusted: map[string]bool{}, reveal: map[string]bool{}, pkg: fn.Pkg.Pkg, paramVals: map[string]Val{}}
 	fx.decls = newDecls()
 	fx.ar = newArith(fx.mode, fx.decls)
+	fx.rename = e.renameTry[pkgPath+":"+key]
 	for g := range e.errGlobals {
 		fx.decls.declare(g+"!tag@0", "Int")
 		fx.decls.declare(g+"!data@0", "Int")
